@@ -25,12 +25,14 @@ VARIABLES committed,   \* content of the zone as visible outside the transaction
           working,     \* content seen inside the open transaction
           mode,        \* "idle" | "write" | "read" | "ended"
           replacing,   \* the open write transaction was begun with replacement=True
+          corigin,     \* BOOLEAN: the zone's origin is known outside the transaction
+          worigin,     \* BOOLEAN: the origin is known inside the open transaction
           nops,        \* calls made in this transaction
           res,         \* "ok" | "refused"   outcome of the last call
           val          \* value returned by the last read: <<"-">>, <<"none">>, <<"rds", ttl, rds>>, <<"bool", b>>,
                        \* <<"names", set>>, <<"node", set of types>>
 
-vars == <<committed, working, mode, replacing, nops, res, val>>
+vars == <<committed, working, mode, replacing, corigin, worigin, nops, res, val>>
 
 ---------------------------------------------------------------------------
 (* Static rules *)
@@ -76,7 +78,7 @@ WellFormed(w) == NoCnameAndOther(w) /\ NoEmptyRdataset(w) /\ SingletonsSingle(w)
 ---------------------------------------------------------------------------
 (* Calls.  `Refuse` is what every call does when it raises: nothing. *)
 Refuse == /\ res' = "refused" /\ val' = <<"-">>
-          /\ UNCHANGED <<committed, working, mode, replacing>>
+          /\ UNCHANGED <<committed, working, mode, replacing, corigin, worigin>>
 
 Called == nops' = nops + 1
 
@@ -86,7 +88,8 @@ Begin(kind, replacement) ==
     /\ working' = IF kind = "write" /\ replacement THEN <<>> ELSE committed
     /\ replacing' = (kind = "write" /\ replacement)
     /\ nops' = 0 /\ res' = "ok" /\ val' = <<"-">>
-    /\ UNCHANGED committed
+    /\ worigin' = corigin
+    /\ UNCHANGED <<committed, corigin>>
 
 Open == mode \in {"write", "read"}
 
@@ -94,7 +97,7 @@ Open == mode \in {"write", "read"}
    an owner name that is not at or below the origin *)
 Add(inzone, n, ty, ttl, rds) ==
     /\ Open /\ Called
-    /\ IF mode = "read" \/ ~inzone \/ (ty = "SOA" /\ n # "@") \/ rds = {}
+    /\ IF mode = "read" \/ (~inzone \/ ~worigin) \/ (ty = "SOA" /\ n # "@") \/ rds = {}
        THEN Refuse
        ELSE /\ working' =
                  IF Has(working, n, ty)
@@ -102,38 +105,38 @@ Add(inzone, n, ty, ttl, rds) ==
                           IF Singleton(ty) THEN rds ELSE working[<<n, ty>>].rds \cup rds)
                  ELSE Put(working, n, ty, ttl, rds)
             /\ res' = "ok" /\ val' = <<"-">>
-            /\ UNCHANGED <<committed, mode, replacing>>
+            /\ UNCHANGED <<committed, mode, replacing, corigin, worigin>>
 
 Replace(inzone, n, ty, ttl, rds) ==
     /\ Open /\ Called
-    /\ IF mode = "read" \/ ~inzone \/ (ty = "SOA" /\ n # "@") \/ rds = {}
+    /\ IF mode = "read" \/ (~inzone \/ ~worigin) \/ (ty = "SOA" /\ n # "@") \/ rds = {}
        THEN Refuse
        ELSE /\ working' = Put(working, n, ty, ttl, rds)
             /\ res' = "ok" /\ val' = <<"-">>
-            /\ UNCHANGED <<committed, mode, replacing>>
+            /\ UNCHANGED <<committed, mode, replacing, corigin, worigin>>
 
 (* delete(name) / delete_exact(name) *)
 DeleteName(exact, inzone, n) ==
     /\ Open /\ Called
-    /\ IF mode = "read" \/ ~inzone \/ (exact /\ ~NameExists(working, n))
+    /\ IF mode = "read" \/ (~inzone \/ ~worigin) \/ (exact /\ ~NameExists(working, n))
        THEN Refuse
        ELSE /\ working' = DelName(working, n)
             /\ res' = "ok" /\ val' = <<"-">>
-            /\ UNCHANGED <<committed, mode, replacing>>
+            /\ UNCHANGED <<committed, mode, replacing, corigin, worigin>>
 
 (* delete(name, type[, covers]) *)
 DeleteType(exact, inzone, n, ty) ==
     /\ Open /\ Called
-    /\ IF mode = "read" \/ ~inzone \/ (exact /\ ~Has(working, n, ty))
+    /\ IF mode = "read" \/ (~inzone \/ ~worigin) \/ (exact /\ ~Has(working, n, ty))
        THEN Refuse
        ELSE /\ working' = DelRds(working, n, ty)
             /\ res' = "ok" /\ val' = <<"-">>
-            /\ UNCHANGED <<committed, mode, replacing>>
+            /\ UNCHANGED <<committed, mode, replacing, corigin, worigin>>
 
 (* delete(name, rdataset) / delete(name, rdata) / delete(rrset) *)
 DeleteRdatas(exact, inzone, n, ty, rds) ==
     /\ Open /\ Called
-    /\ IF \/ mode = "read" \/ ~inzone \/ rds = {}
+    /\ IF \/ mode = "read" \/ (~inzone \/ ~worigin) \/ rds = {}
           \/ (exact /\ (~Has(working, n, ty) \/ ~(rds \subseteq working[<<n, ty>>].rds)))
        THEN Refuse
        ELSE /\ working' =
@@ -142,7 +145,7 @@ DeleteRdatas(exact, inzone, n, ty, rds) ==
                       IN IF rest = {} THEN DelRds(working, n, ty)
                          ELSE Put(working, n, ty, working[<<n, ty>>].ttl, rest)
             /\ res' = "ok" /\ val' = <<"-">>
-            /\ UNCHANGED <<committed, mode, replacing>>
+            /\ UNCHANGED <<committed, mode, replacing, corigin, worigin>>
 
 (* update_serial(value, relative) on the apex SOA *)
 UpdateSerial(a) ==
@@ -157,35 +160,35 @@ UpdateSerial(a) ==
                 new == NoZero(IF a.relative THEN SerialAdd(old, a.value) ELSE a.value)
             IN /\ working' = Put(working, "@", "SOA", cur.ttl, {new})
                /\ res' = "ok" /\ val' = <<"-">>
-               /\ UNCHANGED <<committed, mode, replacing>>
+               /\ UNCHANGED <<committed, mode, replacing, corigin, worigin>>
 
 (* reads: answered from `working` (read-your-writes) *)
 Get(inzone, n, ty) ==
     /\ Open /\ Called
-    /\ IF ~inzone THEN Refuse
+    /\ IF (~inzone \/ ~worigin) THEN Refuse
        ELSE /\ res' = "ok"
             /\ val' = IF Has(working, n, ty) THEN <<"rds", working[<<n, ty>>].ttl, working[<<n, ty>>].rds>> ELSE <<"none">>
-            /\ UNCHANGED <<committed, working, mode, replacing>>
+            /\ UNCHANGED <<committed, working, mode, replacing, corigin, worigin>>
 
 Exists(inzone, n) ==
     /\ Open /\ Called
-    /\ IF ~inzone THEN Refuse
+    /\ IF (~inzone \/ ~worigin) THEN Refuse
        ELSE /\ res' = "ok"
             /\ val' = <<"bool", NameExists(working, n)>>
-            /\ UNCHANGED <<committed, working, mode, replacing>>
+            /\ UNCHANGED <<committed, working, mode, replacing, corigin, worigin>>
 
 (* iterate_names(): the owner names present;  get_node(name): the rdataset types there *)
 IterNames ==
     /\ Open /\ Called
     /\ res' = "ok" /\ val' = <<"names", {k[1] : k \in DOMAIN working}>>
-    /\ UNCHANGED <<committed, working, mode, replacing>>
+    /\ UNCHANGED <<committed, working, mode, replacing, corigin, worigin>>
 
 GetNode(inzone, n) ==
     /\ Open /\ Called
-    /\ IF ~inzone THEN Refuse
+    /\ IF (~inzone \/ ~worigin) THEN Refuse
        ELSE /\ res' = "ok"
             /\ val' = IF NameExists(working, n) THEN <<"node", NodeTypes(working, n)>> ELSE <<"none">>
-            /\ UNCHANGED <<committed, working, mode, replacing>>
+            /\ UNCHANGED <<committed, working, mode, replacing, corigin, worigin>>
 
 (* changed(): FALSE guarantees that nothing was changed; TRUE is also allowed after calls
    that touched a node without changing its content (a free choice) *)
@@ -194,7 +197,15 @@ Changed(answer) ==
     /\ (answer = FALSE => (mode = "read" \/ working = (IF replacing THEN <<>> ELSE committed)))
     /\ (mode = "read" => answer = FALSE)
     /\ res' = "ok" /\ val' = <<"bool", answer>>
-    /\ UNCHANGED <<committed, working, mode, replacing>>
+    /\ UNCHANGED <<committed, working, mode, replacing, corigin, worigin>>
+
+(* the transaction learns the zone origin (a $ORIGIN line read by dns.zonefile.Reader in a
+   zone created without an origin); nothing is published before the commit *)
+LearnOrigin ==
+    /\ mode = "write" /\ Called
+    /\ worigin' = TRUE
+    /\ res' = "ok" /\ val' = <<"-">>
+    /\ UNCHANGED <<committed, working, mode, replacing, corigin>>
 
 (* an exception thrown by a check_put_rdataset callback: the call fails, nothing stored *)
 CallbackRaises ==
@@ -205,24 +216,29 @@ CallbackRaises ==
    or "no content", so the model allows both. *)
 Commit ==
     /\ Open
-    /\ \/ committed' = IF mode = "write" THEN working ELSE committed
-       \/ (mode = "write" /\ replacing /\ working = <<>> /\ committed' = committed)
+    /\ \/ /\ committed' = IF mode = "write" THEN working ELSE committed
+          \* the origin learned in the transaction is published with its content; a commit
+          \* that changes no content may or may not publish it (free choice)
+          /\ \/ corigin' = IF mode = "write" THEN worigin ELSE corigin
+             \/ (committed' = committed /\ corigin' = corigin)
+       \/ (mode = "write" /\ replacing /\ working = <<>> /\ committed' = committed /\ corigin' = corigin)
     /\ mode' = "ended" /\ res' = "ok" /\ val' = <<"-">>
-    /\ UNCHANGED <<working, nops, replacing>>
+    /\ UNCHANGED <<working, nops, replacing, worigin>>
 
 (* explicit rollback, or leaving the `with` block through an exception *)
 Rollback ==
     /\ Open
     /\ mode' = "ended" /\ res' = "ok" /\ val' = <<"-">>
-    /\ UNCHANGED <<committed, working, nops, replacing>>
+    /\ UNCHANGED <<committed, working, nops, replacing, corigin, worigin>>
 
 (* any call on an ended transaction is refused *)
 UseAfterEnd ==
     /\ mode = "ended" /\ res' = "refused" /\ val' = <<"-">>
-    /\ UNCHANGED <<committed, working, nops, mode, replacing>>
+    /\ UNCHANGED <<committed, working, nops, mode, replacing, corigin, worigin>>
 
 ---------------------------------------------------------------------------
 Init == /\ committed \in InitZones
+        /\ corigin \in (IF committed = <<>> THEN BOOLEAN ELSE {TRUE}) /\ worigin = FALSE
         /\ working = <<>> /\ mode = "idle" /\ replacing = FALSE /\ nops = 0 /\ res = "ok" /\ val = <<"-">>
 
 RdSets(ty) == IF ty = "SOA" THEN {{s} : s \in Serials}
@@ -242,6 +258,7 @@ Step ==
     \/ \E b \in BOOLEAN : Changed(b)
     \/ DeleteName(FALSE, FALSE, "@")     \* an out-of-zone owner
     \/ CallbackRaises
+    \/ LearnOrigin
 
 Next ==
     \/ \E k \in {"write", "read"}, r \in BOOLEAN : Begin(k, r)
@@ -259,6 +276,8 @@ CommittedWellFormed == WellFormed(committed)
 (* all-or-nothing: the zone changes only in the commit step of a write transaction,
    and then becomes exactly the working content *)
 Atomic == [][(committed' # committed) => (mode = "write" /\ mode' = "ended" /\ res' = "ok" /\ committed' = working)]_vars
+(* the origin becomes known outside only by a commit *)
+OriginAtomic == [][(corigin' # corigin) => (mode = "write" /\ mode' = "ended" /\ corigin' = worigin)]_vars
 (* a refused call changes nothing *)
 RefusedIsNoop == [][(res' = "refused") => (working' = working /\ committed' = committed)]_vars
 (* a read-only transaction never changes anything *)
